@@ -65,7 +65,7 @@ def main():
             out["tests_newly_failing"] = missing[:10]
         props = [a.prop] + [p for p in a.also.split(",") if p]
         if a.related:
-            props += [p for p in related(patch, a.prop) if p not in props]
+            props += [p for p in related(patch, a.prop) if p not in props][: int(os.environ.get("BENIGN_MAX_RELATED", "99"))]
         results = {}
         rd = tempfile.mkdtemp(prefix="oq-benignrep-")
         for prop in props:
